@@ -51,8 +51,9 @@ def rand_filter_(rng, paths, exact):
         return "zzz"
     p = rng.choice(paths)
     comps = p.split("::")
-    k = rng.randrange(8)
+    k = rng.randrange(11)
     if exact:
+        k %= 8
         if k < 4:
             return p
         if k < 6:
@@ -75,6 +76,17 @@ def rand_filter_(rng, paths, exact):
         return rx_escape(comps[0]) + "::.*" + rx_escape(comps[-1][:2])
     if k == 6:
         return rng.choice(["[0-9]+$", "^treedrv::[a-z]", "::[a-z]+[0-9]", "a.c", "x?y", "1+", "no_such_thing_[0-9]"])
+    if k >= 8:
+        # state that is not delimited by operator precedence: every filter is a pattern of its own, so an inline flag or a
+        # verbose-mode comment in one filter says nothing about the filters given after it
+        c = rng.choice(comps)
+        if c.isascii() and c.strip() and not any(ch in c for ch in " #\t"):
+            if k == 8:
+                return "(?i)" + rx_escape(c.upper() if rng.random() < 0.7 else c)
+            if k == 9:
+                return "(?x) " + rx_escape(c) + "  # " + rng.choice(["note", "the fast one", "a|b"])
+            # a pattern in the wrong case: selects nothing unless some other filter's flag leaks into it
+            return rx_escape(c.upper()) if c.upper() != c else rx_escape(c.lower())
     return rx_escape("::".join(comps[:rng.randrange(1, len(comps) + 1)])) + "$"
 
 
@@ -182,6 +194,8 @@ def gen_config(rng, sp, profile):
         single = "ss_wide"
     elif getattr(sp, "budget_scenario", False) and action == "bench" and rng.random() < 0.6:
         single = "sk"
+    elif getattr(sp, "minmax_runner_xt", None) is not None and action == "bench" and rng.random() < 0.8:
+        single = "xt"
     elif rng.random() < profile.get("p_single_runner_opt", 0.0):
         single = rng.choice(["sc", "ss", "th", "c", "xt", "mt", "sk", "sk", "sk"] if profile.get("time_opts") else ["sc", "ss", "th", "c"])
 
@@ -232,6 +246,8 @@ def gen_config(rng, sp, profile):
             which = {"xt": 0, "mt": 1, "sk": 2}[single] if single else rng.randrange(3)
             if which == 0:
                 ns = rng.choice([0, 200, 1000, 4000])
+                if single == "xt" and getattr(sp, "minmax_runner_xt", None) is not None:
+                    ns = sp.minmax_runner_xt
                 ch = rng.choice(["cli", "env", "builder"])
                 ro["xt"] = ns
                 it.how["xt"] = ch
